@@ -33,13 +33,15 @@ def build():
 
 
 class Driver:
-    def __init__(self):
+    def __init__(self, env=None):
         self.p = None
         self.calls = 0
+        self.env = env        # extra process environment (C14 replays run the same request in differently configured processes)
 
     def start(self):
         if self.p is None:
-            self.p = subprocess.Popen([BIN], stdin=subprocess.PIPE, stdout=subprocess.PIPE, text=True, bufsize=1)
+            self.p = subprocess.Popen([BIN], stdin=subprocess.PIPE, stdout=subprocess.PIPE, text=True, bufsize=1,
+                                      env=None if self.env is None else dict(os.environ, **self.env))
 
     def call(self, **req):
         self.start()
